@@ -10,7 +10,7 @@ use serde_json::{json, Value};
 pub static ENGINE: Engine = Engine {
     prop: "C18",
     level: "exploration",
-    rule: "the real random_graph_gen binary with its random source scripted through the verif-hooks feature: for every (V, -u) whose candidate edge list has m <= 6 entries (directed V <= 3, undirected V <= 4) ALL m! Fisher-Yates choice vectors x every E in 0..m+1 x {edge list, --dot}: exactly E distinct edges, endpoints distinct and among v0..v(V-1), no reversed pair under -u, E > m refused with non-zero exit and no edge printed, and the number of distinct outputs over all vectors equals m!/(m-E)! (proof that every choice is owned). For larger candidate lists (V=4,5 directed; V=5,6 undirected; m = 10..20) every ORDERED SELECTION of E <= 2 (3) candidate edges is forced by a constructed choice vector. -o FILE onto an existing longer file = stdout of the same request. --complete x V in 0..5 x -u x {no E, E = 0, 1, m, m+1, 50} = all pairs. --convert: every edge list <= 3 over {a,b,c} x -u x {csv, --dot} x {newline-terminated, no final newline} reproduces the list (reversed duplicates merged under -u); also lists <= 2 with self-loops and with vertex names that look like keywords of graph formats (graph1, digraph, strict_x, node, edge, subgraph). --colors k: every loop-free graph on <= 4 named vertices (two name families, one with names that are prefixes of each other) x k in 0..3: the output has a clique choosing one (vertex,colour) per input vertex iff the input is k-colourable (brute force). Larger inputs: graphs on five vertices with two-digit names x k in 2..4 (every third graph in quick, all 1023 in thorough) and edge lists of 4..10 edges through --convert. Labelled supplement: un-scripted runs with fresh entropy (sampled, not part of the claim). distinct = distinct (argv, script, stdout)",
+    rule: "the real random_graph_gen binary with its random source scripted through the verif-hooks feature: for every (V, -u) whose candidate edge list has m <= 6 entries (directed V <= 3, undirected V <= 4) ALL m! Fisher-Yates choice vectors x every E in 0..m+1 x {edge list, --dot}: exactly E distinct edges, endpoints distinct and among v0..v(V-1), no reversed pair under -u, E > m refused with non-zero exit and no edge printed, and the number of distinct outputs over all vectors equals m!/(m-E)! (proof that every choice is owned). For larger candidate lists (V=4,5 directed; V=5,6 undirected; m = 10..20) every ORDERED SELECTION of E <= 2 (3) candidate edges is forced by a constructed choice vector. -o FILE onto an existing longer file = stdout of the same request, also for --convert and for --convert F -o F (in place). --complete x V in 0..5 x -u x {no E, E = 0, 1, m, m+1, 50} = all pairs. --convert: every edge list <= 3 over {a,b,c} x -u x {csv, --dot} x {newline-terminated, no final newline} reproduces the list (reversed duplicates merged under -u); also lists <= 2 with self-loops and with vertex names that look like keywords of graph formats (graph1, digraph, strict_x, node, edge, subgraph). --colors k: every loop-free graph on <= 4 named vertices (two name families, one with names that are prefixes of each other) x k in 0..3: the output has a clique choosing one (vertex,colour) per input vertex iff the input is k-colourable (brute force). Larger inputs: graphs on five vertices with two-digit names x k in 2..4 (every third graph in quick, all 1023 in thorough) and edge lists of 4..10 edges through --convert. Labelled supplement: un-scripted runs with fresh entropy (sampled, not part of the claim). distinct = distinct (argv, script, stdout)",
     assumptions: &["the hook replays RSBDD_VERIF_RNG as the u32 values drawn by rand 0.8's shuffle (widening-multiply index sampling); a mismatch shows up as a wrong number of distinct outputs", "k-colourability is defined on loop-free graphs; isolated vertices cannot be expressed in an edge list"],
     max_shards: 64,
     run,
@@ -293,6 +293,52 @@ fn output_file_sweep(ctx: &mut Ctx) {
             ctx.violation(key, format!("run failed: {} {}", r.describe(), r.err_tail()), c);
         } else if written != reference.stdout {
             ctx.violation(key, format!("the output file holds {} bytes that differ from what the same request prints on stdout ({} bytes); it existed before with longer content", written.len(), reference.stdout.len()), c);
+        }
+    }
+}
+
+/// `--convert F -o G`: the file G holds what the same request prints on stdout — also when G is
+/// an existing longer file, and when G is F itself (conversion in place)
+fn convert_output_sweep(ctx: &mut Ctx) {
+    let lists: [&[(&str, &str)]; 3] = [&[("a", "b"), ("b", "a"), ("b", "c")], &[("v10", "v2")], &[("p", "q"), ("q", "r"), ("r", "p"), ("p", "q")]];
+    let mut idx = 1u64 << 40;
+    for l in lists {
+        for u in [false, true] {
+            for dot in [false, true] {
+                for in_place in [false, true] {
+                    idx += 1;
+                    if !ctx.mine(idx) {
+                        continue;
+                    }
+                    let edges: Vec<(String, String)> = l.iter().map(|(a, b)| (a.to_string(), b.to_string())).collect();
+                    let c = json!({"part": "convert-outfile", "edges": l.iter().map(|(a, b)| vec![a.to_string(), b.to_string()]).collect::<Vec<_>>(), "undirected": u, "dot": dot, "in_place": in_place});
+                    ctx.begin_case(|| c.clone());
+                    ctx.count("evaluations", 1);
+                    ctx.count("output_file_runs", 1);
+                    let csv: String = edges.iter().map(|(a, b)| format!("{a},{b}\n")).collect();
+                    let input = scratch_file("convert-in.csv", csv.as_bytes());
+                    let mut base = vec!["--convert".to_string(), input.display().to_string()];
+                    if u {
+                        base.push("-u".into());
+                    }
+                    if dot {
+                        base.push("--dot".into());
+                    }
+                    let reference = run_bin("random_graph_gen", &base, None, &[]);
+                    let out = if in_place { input.clone() } else { scratch_file("convert-out.txt", "v9,v8\n".repeat(400).as_bytes()) };
+                    let mut args = base.clone();
+                    args.extend(["-o".to_string(), out.display().to_string()]);
+                    let r = run_bin("random_graph_gen", &args, None, &[]);
+                    let written = std::fs::read(&out).unwrap_or_default();
+                    let key = format!("{TAG} --convert {:?}{}{} -o {}", csv, if u { " -u" } else { "" }, if dot { " --dot" } else { "" }, if in_place { "<the input file itself>" } else { "<existing longer file>" });
+                    ctx.distinct(&(&csv, u, dot, in_place));
+                    if !r.ok() || !reference.ok() {
+                        ctx.violation(key, format!("run failed: {} {}", r.describe(), r.err_tail()), c);
+                    } else if written != reference.stdout {
+                        ctx.violation(key, format!("the output file holds {:?}, the same request prints {:?} on stdout", String::from_utf8_lossy(&written), reference.out()), c);
+                    }
+                }
+            }
         }
     }
 }
@@ -642,6 +688,7 @@ fn run(ctx: &mut Ctx) {
     if ctx.shard == 0 {
         complete_sweep(ctx);
     }
+    convert_output_sweep(ctx);
     convert_sweep(ctx);
     convert_sweep_large(ctx);
     unscripted_supplement(ctx);
@@ -652,6 +699,15 @@ fn replay(ctx: &mut Ctx, c: &Value) {
     let edges = || -> Vec<(String, String)> { c["edges"].as_array().map(|a| a.iter().map(|e| (e[0].as_str().unwrap_or("").to_string(), e[1].as_str().unwrap_or("").to_string())).collect()).unwrap_or_default() };
     match c["part"].as_str() {
         Some("complete") => complete_sweep(ctx),
+        Some("convert-outfile") => {
+            let mut c2 = Ctx::new("C18", ctx.tier, ctx.seed, 0, 1);
+            convert_output_sweep(&mut c2);
+            for v in c2.violations {
+                if v.replay == *c {
+                    ctx.violation(v.key, v.what, v.replay);
+                }
+            }
+        }
         Some("outfile") => {
             let mut c2 = Ctx::new("C18", ctx.tier, ctx.seed, 0, 1);
             output_file_sweep(&mut c2);
